@@ -144,6 +144,8 @@ def verify_one(task):
         defs.append("-DLL_MODE_UF")
     elif task["mode"] == "ufadd":
         defs += ["-DLL_MODE_UF", "-DLL_MODE_UF_ADD"]
+    elif task["mode"] == "specuf":      # contract-only lemmas: the spec functions themselves are uninterpreted
+        defs += ["-DLL_MODE_UF", "-DLL_MODE_UF_ADD", "-DSPEC_UF"]
     defs += task.get("defs", [])
     inc = ["-I", os.path.join(VERIF, "rt"), "-I", os.path.join(VERIF, "models"), "-I", os.path.join(VERIF, "spec"), "-I", wd]
     res = {"target": task["target"], "mode": task["mode"], "backend": task["backend"], "stem": stem}
